@@ -96,6 +96,9 @@ class MonteCarlo(SensitivityAnalysis):
 
         self._results = pd.DataFrame(results)
 
+        # leave the optic at its nominal prescription (as SensitivityAnalysis)
+        self.tolerancing.reset()
+
     def view_histogram(self, kde=True):
         """
         Displays a histogram of the data.
